@@ -32,6 +32,9 @@ func classify(o *obs, clause string) string {
 		if hasSeq(o.Toks, hxgram.KFor, "*", hxgram.KNewl, hxgram.KSemi) {
 			return "dash_for_newline_semicolon"
 		}
+		if operatorAsCasePattern(o.Toks) {
+			return "dash_operator_as_case_pattern"
+		}
 	case "parser_accepts_bash_rejects":
 		if c := classifyAccepted(o.Src, syntax.LangBash, true); c != "" {
 			return c
@@ -54,6 +57,34 @@ func forNewlineInAfterCase(toks []string) bool {
 			seenCase = true
 		}
 		if seenCase && toks[i] == hxgram.KFor && toks[i+2] == hxgram.KNewl && toks[i+3] == hxgram.KIn {
+			return true
+		}
+	}
+	return false
+}
+
+// operatorAsCasePattern: inside a case clause, an operator token where a pattern must start (after `in`, `;;`,
+// a newline, `(` or `|`) directly followed by `)` or `|`. dash takes any token as a pattern there.
+func operatorAsCasePattern(toks []string) bool {
+	seenCase := false
+	for i := 1; i+1 < len(toks); i++ {
+		if toks[i-1] == hxgram.KCase || toks[i] == hxgram.KCase {
+			seenCase = true
+		}
+		if !seenCase {
+			continue
+		}
+		switch toks[i] {
+		case hxgram.KSemi, hxgram.KAmp, hxgram.KAndAnd, hxgram.KOrOr, hxgram.KDSemi:
+		default:
+			continue
+		}
+		switch toks[i-1] {
+		case hxgram.KIn, hxgram.KDSemi, hxgram.KNewl, hxgram.KLparen, hxgram.KPipe:
+		default:
+			continue
+		}
+		if toks[i+1] == hxgram.KRparen || toks[i+1] == hxgram.KPipe {
 			return true
 		}
 	}
